@@ -459,6 +459,30 @@ def handle(req):
             except BaseException as ex:
                 out.append({"error": f"{type(ex).__name__}: {str(ex)[:200]}"})
         return {"results": out}
+    if op == "gates_raw":
+        # the miner's raw tree (below the start event) and what the repository's post-processing makes of it
+        from copy import deepcopy
+        from tel2puml.events import EventSet
+        from tel2puml.logic_detection import (calculate_process_tree_from_event_sets,
+                                              reduce_process_tree_to_preferred_logic_gates,
+                                              calculate_repeats_in_tree)
+        def dump(n):
+            if n.operator is None:
+                return n.label
+            o = str(n.operator.value)
+            return [{"+": "+", "O": "O", "X": "X"}.get(o, "?")] + [dump(c) for c in n.children]
+        out = []
+        for fam in req["families"]:
+            try:
+                es = {EventSet(list(s)) for s in fam}
+                pt = calculate_process_tree_from_event_sets(es)
+                raw = dump(pt.children[1])
+                tree = reduce_process_tree_to_preferred_logic_gates(es, pt)
+                final = calculate_repeats_in_tree(es, tree)
+                out.append({"raw": raw, "final": dump(final)})
+            except BaseException as ex:
+                out.append({"error": f"{type(ex).__name__}: {str(ex)[:200]}"})
+        return {"results": out}
     if op == "infer_or":
         # infer_or_gate_from_node on the root / get_extended_or_gates_from_process_tree on the whole tree
         from tel2puml.events import EventSet
